@@ -374,6 +374,7 @@ class ElectionProfile:
         #  a multiplier of 0 ends the ballot list
         #
         ballotIDs = set()
+        nBallotItems = 0    # ballot items read, including ones dropped as empty
 
         while True:
             if tok.startswith('('):     # handle ballot ID
@@ -392,6 +393,7 @@ class ElectionProfile:
                     (tok, self.lineNumber))
             if not multiplier:  # test end of ballot lines (multiplier of 0)
                 break
+            nBallotItems += 1
 
             ranking = list()    # [CID]
             while True:
@@ -410,9 +412,9 @@ class ElectionProfile:
 
             tok = next(blt)  # next multiplier or 0 for end of ballots
 
-        if ballotIDs and len(ballotIDs) != len(self.ballotLines):
+        if ballotIDs and len(ballotIDs) != nBallotItems:
             raise ElectionProfileError('number of ballot IDs (%d) does not match number of ballots (%d)' % \
-                (len(ballotIDs), len(self.ballotLines)))
+                (len(ballotIDs), nBallotItems))
 
         #  candidate names
         #
